@@ -330,7 +330,14 @@ def r5_read_loop(ctx):
                       "query_host_raw evaluates %s outside the read loop: a verdict taken on the first segment is reused, so a short first packet makes a "
                       "V1-MIME answer end at the first blank line (the parsed answer depends on how TCP split the bytes)" % s.name.split("::")[-1], s.loc(),
                       sample={"sniff": s.loc(), "reads": [r.loc() for r in reads]})
-    ctx.floor(rule, sniff_total, 2, "content sniffs in the Ribbit read loop")
+    if sniff_total == 0:
+        # no content-dependent exit at all: the loop ends on EOF / timeout / size cap only, which is the strongest form of independence from how the
+        # transport split the bytes (the early `ends_with("\n\n")` exit was removed by a fix: commit dedde05)
+        n_reads = sum(len(b.calls_matching(r"AsyncReadExt>?::read$|AsyncReadExt>?::read_buf$")) for b in fam)
+        ctx.check(n_reads >= 1, rule, ["query_host_raw", "no-content-dependent-exit"], "the read loop has no content-dependent exit (ends on EOF / timeout / cap)",
+                  "anchor-missing: no read call found in RibbitClient::query_host_raw", fam[0].loc(), sample={"reads": n_reads})
+    else:
+        ctx.floor(rule, sniff_total, 2, "content sniffs in the Ribbit read loop")
 
 
 def r6_cdn_download(ctx):
